@@ -7,6 +7,7 @@ from checks import common
 
 sys.path.insert(0, os.path.join(common.VERIF, "tools"))
 import extract_fields  # noqa: E402
+from checks import api_cov
 
 LEAN_TARGETS = ["QmcProps.C14", "drv_c14"]
 BINS = ["c14"]
@@ -142,4 +143,6 @@ def main(ck):
     if ck.cargo_build(BINS):
         cases = ck.harness("c14", ["all"])
         ck.correspond("snapshot-restore-lockstep", "drv_c14", cases, max_samples=6)
+    api_cov.run(ck, "c13")   # otherwise unexercised public API, model-free oracles of this property
+    api_cov.run(ck, "c07")   # otherwise unexercised public API, model-free oracles of this property
     return ck.finish(RULE)
